@@ -165,6 +165,8 @@ type Unit struct {
 	frameCount int
 	frameSites map[string]int
 	atAsserts map[*ast.CallExpr][]*Clause
+	// declarations of the contract-less helpers currently executed in place (innermost last)
+	spliceDecls []*ast.FuncDecl
 	refMapValue map[string]bool
 	argCache   map[ast.Expr]Val
 	frameAlloc string
